@@ -13,6 +13,8 @@
      R2  getRoundedWindow: k % f.ProofInterval                integer division by zero
          (reached from manageProof -> ProvenLastBlock unless the early return
           "file is old and the proof record is missing" fires first)
+     R6  RemoveProverWithKey: f.Proofs[i+1:]                  slice bounds out of range
+         (a proof key listed twice on one file)
      R3  timeLeftDec.Quo(totalTimeDec)                        sdk.Dec division by zero
      R4  newBalance.TruncateInt64()                           out of int64
      R5  sdk.NewInt64Coin(denom, amt64)                       negative amount / invalid denom
@@ -37,8 +39,9 @@ Arguments Panic {S}.
 
 (* ------------------------------------------------------------------ storage: files *)
 
-(* one prover slot of a file: is the FileProof record found, and its LastProven *)
-Record bslot := { sl_found : bool; sl_last : Z }.
+(* one prover slot of a file as listed in UnifiedFile.Proofs: the proof key (an id: equal keys,
+   equal ids), whether the FileProof record is found at the start of the block, its LastProven *)
+Record bslot := { sl_key : N; sl_found : bool; sl_last : Z }.
 
 Record bfile := { bf_size : Z; bf_interval : Z; bf_start : Z; bf_slots : list bslot }.
 
@@ -50,38 +53,72 @@ Definition rounded_window (h start window : Z) : option Z :=
 
 Inductive slot_verdict := Keep | Remove | RemoveBurn.
 
-(* manageProof on one slot *)
-Definition manage_slot (f : bfile) (h : Z) (s : bslot) : outcome slot_verdict :=
-  if negb (is_young f h) && negb (sl_found s) then Done Remove
+(* manageProof's decision on one key, given whether its record is (still) found *)
+Definition manage_slot (f : bfile) (h : Z) (found : bool) (last : Z) : outcome slot_verdict :=
+  if negb (is_young f h) && negb found then Done Remove
   else match rounded_window h (bf_start f) (bf_interval f) with
        | None => Panic                                                     (* R2 *)
        | Some w =>
-         let proven := w - bf_interval f <=? (if sl_found s then sl_last s else 0) in
+         let proven := w - bf_interval f <=? (if found then last else 0) in
          if negb proven && negb (is_young f h) then Done RemoveBurn else Done Keep
        end.
 
-Fixpoint manage_slots (f : bfile) (h : Z) (l : list bslot) : outcome (list bslot) :=
-  match l with
-  | [] => Done []
+(* UnifiedFile.RemoveProverWithKey on the slice f.Proofs = (backing array arr, length len).
+   The Go loop `for i, proof := range f.Proofs` fixes the number of iterations (the length at
+   entry) and reads the backing array, while each match shifts that same array in place
+   (append(front, back...)) and shortens f.Proofs; `f.Proofs[i+1:]` is then taken on the SHORTENED
+   slice and panics with "slice bounds out of range" when i+1 exceeds its length (R6) — which is
+   what happens when one key is listed twice. *)
+Definition shift (arr : list N) (i len : nat) : list N :=
+  firstn i arr ++ skipn (S i) (firstn len arr) ++ skipn (len - 1) arr.
+
+Fixpoint rwk (fuel i : nat) (arr : list N) (len : nat) (key : N) : outcome (list N * nat) :=
+  match fuel with
+  | O => Done (arr, len)
+  | S fuel' =>
+    if N.eqb (nth i arr 0%N) key
+    then if Nat.leb (S i) len then rwk fuel' (S i) (shift arr i len) (len - 1) key else Panic   (* R6 *)
+    else rwk fuel' (S i) arr len key
+  end.
+
+Definition remove_with_key (arr : list N) (len : nat) (key : N) : outcome (list N * nat) :=
+  rwk len 0 arr len key.
+
+Definition mem_key (k : N) (l : list N) : bool := existsb (N.eqb k) l.
+
+(* the walk of ManageRewards over a COPY of the prover list; [removed]: keys whose record has been
+   deleted by an earlier removal in this walk *)
+Fixpoint manage_walk (f : bfile) (h : Z) (todo : list bslot) (arr : list N) (len : nat) (removed : list N)
+  : outcome (list N * nat) :=
+  match todo with
+  | [] => Done (arr, len)
   | s :: r =>
-    match manage_slot f h s with
+    match manage_slot f h (sl_found s && negb (mem_key (sl_key s) removed)) (sl_last s) with
     | Panic => Panic
-    | Done v =>
-      match manage_slots f h r with
+    | Done Keep => manage_walk f h r arr len removed
+    | Done _ =>
+      match remove_with_key arr len (sl_key s) with
       | Panic => Panic
-      | Done r' => Done (match v with Keep => s :: r' | _ => r' end)
+      | Done (arr', len') => manage_walk f h r arr' len' (sl_key s :: removed)
       end
     end
+  end.
+
+Definition slot_of (slots : list bslot) (k : N) : bslot :=
+  match find (fun s => N.eqb (sl_key s) k) slots with
+  | Some s => s
+  | None => {| sl_key := k; sl_found := false; sl_last := 0 |}
   end.
 
 (* one file of ManageRewards: None = the file was removed (no provers and not young) *)
 Definition manage_file (h : Z) (f : bfile) : outcome (option bfile) :=
   match bf_slots f with
   | [] => if is_young f h then Done (Some f) else Done None
-  | l => match manage_slots f h l with
+  | l => match manage_walk f h l (map sl_key l) (length l) [] with
          | Panic => Panic
-         | Done l' => Done (Some {| bf_size := bf_size f; bf_interval := bf_interval f;
-                                    bf_start := bf_start f; bf_slots := l' |})
+         | Done (arr, len) =>
+           Done (Some {| bf_size := bf_size f; bf_interval := bf_interval f; bf_start := bf_start f;
+                         bf_slots := map (slot_of l) (firstn len arr) |})
          end
   end.
 
@@ -228,7 +265,13 @@ Definition mint_panics (denom_ok stip_parses : bool) (p : mparams) (s : mstate) 
         if bad (dev_ratio p) then true else
         match pay mint_accts b1 (a_dev mint_accts) (share (dev_ratio p) e) with
         | None => false
-        | Some _ => if negb stip_parses then false else bad (prov_ratio p)
+        | Some _ =>
+          (* mintStorageProviderStipend truncates the share (M3) BEFORE send() parses the address;
+             only the coin construction (M4) comes after the parse *)
+          match share64 (prov_ratio p) e with
+          | None => true
+          | Some x => if negb stip_parses then false else x <? 0
+          end
         end
       end
   end.
@@ -239,7 +282,7 @@ Definition mint_panics (denom_ok stip_parses : bool) (p : mparams) (s : mstate) 
    part of the state begin-block reads.  Everything else a transaction does is invisible here. *)
 Inductive bop :=
 | OpPostFile (size : Z)                      (* PostFile: new file, interval = the ProofWindow parameter, start = height *)
-| OpAddSlot (file : nat) (found : bool)      (* a prover is listed on a file (PostProof; found=false: record lost) *)
+| OpAddSlot (file : nat) (key : N) (found : bool)   (* a prover key is listed on a file (PostProof; found=false: record lost) *)
 | OpProve (file slot : nat)                  (* LastProven := height (PostProof / attestation) *)
 | OpDropSlot (file slot : nat)               (* report / shutdown / delete removes a prover *)
 | OpDeleteFile (file : nat)
@@ -279,10 +322,10 @@ Definition apply_op (b : bstate) (o : bop) : bstate :=
   match o with
   | OpPostFile size =>
     with_files b (ss_files (b_s b) ++ [{| bf_size := size; bf_interval := b_proof_window b; bf_start := b_height b; bf_slots := [] |}])
-  | OpAddSlot i found =>
-    with_files b (upd (ss_files (b_s b)) i (fun f => set_slots f (bf_slots f ++ [{| sl_found := found; sl_last := b_height b |}])))
+  | OpAddSlot i key found =>
+    with_files b (upd (ss_files (b_s b)) i (fun f => set_slots f (bf_slots f ++ [{| sl_key := key; sl_found := found; sl_last := b_height b |}])))
   | OpProve i j =>
-    with_files b (upd (ss_files (b_s b)) i (fun f => set_slots f (upd (bf_slots f) j (fun s => {| sl_found := sl_found s; sl_last := b_height b |}))))
+    with_files b (upd (ss_files (b_s b)) i (fun f => set_slots f (upd (bf_slots f) j (fun s => {| sl_key := sl_key s; sl_found := sl_found s; sl_last := b_height b |}))))
   | OpDropSlot i j =>
     with_files b (upd (ss_files (b_s b)) i (fun f => set_slots f (del (bf_slots f) j)))
   | OpDeleteFile i => with_files b (del (ss_files (b_s b)) i)
